@@ -37,7 +37,7 @@ def parse_spec(path):
                 harness=None, defines={}, cbmc_flags=[], timeout={}, mode='proof', unwind=None,
                 contracts={}, replace_extra={}, loops=[], externals={}, assumptions=[], mutants=[],
                 allow_nobody=[], includes=[], covers=[], variants=[], not_decided=[], path=path, goto_flags=[],
-                memlimit_gb=None, object_bits=None, instrument='dfcc', pins={})
+                memlimit_gb=None, object_bits=None, instrument='dfcc', pins={}, status='active')
     cur = None
     buf = []
 
@@ -105,6 +105,10 @@ def parse_spec(path):
                 if arg not in ('dfcc', 'legacy'):
                     raise Undecided('%s: bad @@instrument %r' % (path, arg))
                 spec['instrument'] = arg
+            elif key == 'status':
+                # "@@status wip <why>": unit is under construction: never run by a property check, never counted
+                spec['status'] = arg.split()[0]
+                spec['status_note'] = arg
             elif key == 'object_bits':
                 spec['object_bits'] = int(arg)
             elif key == 'mode':
